@@ -1483,7 +1483,12 @@ def check(run):
         "delivered as query argument, attached, or composite-passed; each query runs on MemorySource(objects), "
         "MemorySource(dicts), FileSystemSource (each also wrapped in a CompositeDataSource) and a two-member composite "
         "[memory, filesystem]; per population up to 6 get/all_versions lookups with attached and composite filters run "
-        "on memory, filesystem, each wrapped in a composite, and the two-member composite. Every answer is compared "
+        "on memory, filesystem, each wrapped in a composite, and the two-member composite. One query object is built per "
+        "query and handed to all routes in turn -- a third of them as a FilterSet object -- and must be unchanged afterwards; "
+        "in a third of the unrelated queries the two members of the composite carry different attached filters. Per "
+        "population one history: a FileSystemStore and a MemoryStore receive the objects in two to five steps (half of the "
+        "histories: objects without `modified` first) and the same store objects answer four queries after every step. "
+        "Every answer is compared "
         "with the model (memory: exact order; filesystem: multiset / exception class) and with the reference "
         "evaluation (timestamps as instants); conjunction = intersection and monotonicity are checked on the "
         "implementation's own answers for triples (A, B, A+B). Non-trivial = non-empty population and at least one filter.")
